@@ -26,6 +26,12 @@ package hclsyntax
 //@   guard-call simple: "append" (argis(0, "ret") && !argis(1, "bt") && len(arg(1)) == 1 && fresh(arrayof(arg(1)))) ==> (len(slice) >= 2 && ((slice[1] == 110 && arg(1)[0] == 10) || (slice[1] == 114 && arg(1)[0] == 13) || (slice[1] == 116 && arg(1)[0] == 9) || (slice[1] == 34 && arg(1)[0] == 34) || (slice[1] == 92 && arg(1)[0] == 92) || ((slice[1] == 117 || slice[1] == 85) && arg(1)[0] == 0) || ((slice[0] == 36 || slice[0] == 37) && len(slice) == 3 && slice[1] == slice[0] && slice[2] == 123 && (arg(1)[0] == slice[0] || arg(1)[0] == 123))))
 //@   guard-call hexbyte: "append" (argis(0, "ret") && argis(1, "bt")) ==> (len(slice) >= 4 && slice[1] == 120 && len(bt) == 1 && bt[0] == uf_hexbyte(lastarg(DecodeString, 0)) && strofbytes(lastarg(DecodeString, 0), slice[2:4]))
 //@   guard-call verbatim: "append" (argis(0, "ret") && !argis(1, "bt") && !(len(arg(1)) == 1 && fresh(arrayof(arg(1))))) ==> (sameslice(arg(1), slice) || (len(slice) >= 4 && slice[1] == 120 && sameslice(arg(1), slice[4:])) || (len(slice) >= 2 && slice[0] == 92 && sameslice(arg(1), slice[1:])))
+// a piece is copied as it stands only if it is not one of the template escapes, and - inside quotes - a piece
+// that starts with a backslash is kept as text (whole, or without the backslash) only together with a diagnostic
+// added for it: nothing the dialect does not define is accepted silently
+//@ spec tplEsc(s) = len(s) == 3 && (s[0] == 36 || s[0] == 37) && s[1] == s[0] && s[2] == 123
+//@   guard-call whole:  "append" (argis(0, "ret") && sameslice(arg(1), slice)) ==> (!tplEsc(slice) && ((quoted && slice[0] == 92) ==> len(diags) > len(atloophead(diags))))
+//@   guard-call kept:   "append" (argis(0, "ret") && len(slice) >= 2 && sameslice(arg(1), slice[1:])) ==> len(diags) > len(atloophead(diags))
 //   (the result buffer is this call's own storage, the pieces lie in the token's bytes: writing one never changes the other)
 //@   loop "for _, slice := range slices"
 //@     invariant own: (cap(ret) == 0 || fresh(arrayof(ret))) && forall(k, 0, len(slices), len(slices[k]) == 0 || samearray(slices[k], tok.Bytes))
